@@ -9,14 +9,19 @@ Layers of the write → save → reopen path and where each is covered:
   payload + ids ↔ cell record       C04 `decode_encode`, re-used in `number_cell_roundtrip`
   records ↔ row (offset table)      `row_roundtrip`, `row_offsets_fit_int16`          (this file)
   rows ↔ 256-row tiles              `tiles_cover`, `tiles_bounded`, `tiles_count`      (this file)
+  text ↔ string key ↔ string list   `DataLists.init` / `lookup_key` / `add_table` / `table_string`: inside `table_roundtrip`
+  row index ↔ stored row record     `row_storage_map` / `storage_buffers` / `storage_buffer`: inside `table_roundtrip`
+  ALL OF THE ABOVE COMPOSED         `table_roundtrip` — `recalculate_table_data` then `Table.__init__`   (this file)
   tiles ↔ file                      protobuf / snappy / zip: property C05, assumed here
   payload bytes → float/datetime    CPython float parsing, `struct`, `timedelta`: assumed, exercised
 -/
 import NumbersModel.Lemmas.Decimal128
 import NumbersModel.Lemmas.RowStorage
 import NumbersModel.Lemmas.CellRecord
+import NumbersModel.Lemmas.TablePipeline
 namespace NumbersModel.Props.C01
 open NumbersModel NumbersModel.Decimal128 NumbersModel.RowStorage NumbersModel.CellRecord
+open NumbersModel.TablePipeline
 
 /-- the decimal triples the 16-byte payload can hold: 113-bit coefficient, 14-bit biased exponent. -/
 def InFormat (d : Dec) : Prop :=
@@ -146,6 +151,53 @@ theorem tiles_count {α} (data : List α) (hn : data.length ≠ 0) :
     (by have := Nat.div_le_self (data.length - 1) 256; omega)
   simpa [tiles] using this
 
+/-! ### the whole table: `recalculate_table_data` then `Table.__init__` -/
+
+/-- **table round trip** (end-to-end composition of every layer above with the string list, the
+    row map and the grid rebuild loop). For every grid of cells with at least one row, all rows of
+    the same width `w ≤ MAX_COL_COUNT`, at most `MAX_ROW_COUNT` rows (any number of 256-row tiles),
+    every cell either a merged placeholder (a hole in the row storage) or a supported class with a
+    well-sized payload and int32 ids (`ValidCell`: any mix of number, currency, text, date, bool,
+    duration, rich-text and empty cells), and a merge map that names exactly the placeholders:
+    saving the grid (`saveTable` = `recalculate_table_data`) never raises, reading the saved
+    objects back (`loadTable` = `Table.__init__` over `row_storage_map` / `storage_buffers` /
+    `storage_buffer` / `_from_storage` / `table_string`) never raises, and the grid read is the grid
+    saved, position by position: same class, same payload bytes, same twelve ids, same flag words —
+    and for a text cell the same string, although every string key was re-assigned by the save
+    (`forgetKey` hides only the numeric value of the key). No bound on the size other than the
+    library's own limits; the row limit is what makes every key fit the int32 field
+    (`MAX_ROW_COUNT · MAX_COL_COUNT ≤ 2^31 − 1`, re-`decide`d against the generated constants). -/
+theorem table_roundtrip (mr : Nat → Nat → Bool) (grid : List (List TCell)) (w : Nat)
+    (hne : 1 ≤ grid.length) (hrect : TablePipeline.Rect grid w) (hw : w ≤ Gen.MAX_COL_COUNT)
+    (hrows : grid.length ≤ Gen.MAX_ROW_COUNT) (hvalid : ∀ row ∈ grid, ∀ c ∈ row, ValidCell c)
+    (hmr : MergeAgrees mr grid) :
+    ((saveTable grid).bind (loadTable mr)).map (fun g => g.map (·.map forgetKey))
+      = .ok (grid.map (·.map viewT)) := by
+  have hne' : grid ≠ [] := by intro h; rw [h] at hne; simp at hne
+  obtain ⟨s, g, hs, hg, heq⟩ := load_save mr grid w hne' hrect hw hrows hvalid hmr
+  rw [hs]
+  show (loadTable mr s).map _ = _
+  rw [hg]
+  exact congrArg Except.ok heq
+
+/-- the saved table has the dimensions of the grid and `ceil(rows / 256)` tiles. -/
+theorem table_saved_shape (grid : List (List TCell)) (w : Nat)
+    (hne : 1 ≤ grid.length) (hrect : TablePipeline.Rect grid w) (hw : w ≤ Gen.MAX_COL_COUNT)
+    (hrows : grid.length ≤ Gen.MAX_ROW_COUNT) (hvalid : ∀ row ∈ grid, ∀ c ∈ row, ValidCell c) :
+    ∃ s, saveTable grid = .ok s ∧ s.numRows = grid.length ∧ s.numCols = w ∧
+      s.tiles.length = (grid.length - 1) / 256 + 1 := by
+  have hne' : grid ≠ [] := by intro h; rw [h] at hne; simp at hne
+  -- the merge map that agrees with the grid by construction
+  let mr : Nat → Nat → Bool := fun r c =>
+    match grid[r]? with
+    | some row => (match row[c]? with | some cell => decide (cell.kind = .merged) | none => false)
+    | none => false
+  have hmr : MergeAgrees mr grid := by
+    intro r row hrow c cell hcell
+    simp [mr, hrow, hcell]
+  obtain ⟨s, _, hs, _, h1, h2, h3, _⟩ := load_save_rel mr grid w hne' hrect hw hrows hvalid hmr
+  exact ⟨s, hs, h1, h2, by rw [h3, tiles_count grid (by omega)]⟩
+
 /-! ### non-vacuity -/
 
 example : InFormat { sign := true, coeff := 12345, exp := -2 } := by
@@ -164,5 +216,45 @@ example : (tiles (List.range 513)).map (fun t => (t.1, t.2.length)) = [(0, 256),
   decide +kernel
 example : (tiles (List.range 512)).map (fun t => (t.1, t.2.length)) = [(0, 256), (1, 256)] := by
   decide +kernel
+
+/-- a 3 × 2 grid: a text, a number, a merged hole, the same text again, an empty cell, a bool. -/
+def demoGrid : List (List TCell) :=
+  [[⟨.text, [], "ab".toList, none, {}⟩, ⟨.number, List.replicate 16 7, [], none, { numFmt := some 3 }⟩],
+   [⟨.merged, [], [], none, {}⟩, ⟨.text, [], "ab".toList, none, {}⟩],
+   [⟨.empty, [], [], none, {}⟩, ⟨.bool, List.replicate 8 1, [], none, {}⟩]]
+def demoMerge : Nat → Nat → Bool := fun r c => r == 1 && c == 0
+
+/-- the hypotheses of `table_roundtrip` are satisfiable ... -/
+example : 1 ≤ demoGrid.length ∧ TablePipeline.Rect demoGrid 2 ∧ 2 ≤ Gen.MAX_COL_COUNT ∧
+    demoGrid.length ≤ Gen.MAX_ROW_COUNT ∧ (∀ row ∈ demoGrid, ∀ c ∈ row, ValidCell c) ∧
+    MergeAgrees demoMerge demoGrid := by
+  refine ⟨by decide, by simp [TablePipeline.Rect, demoGrid], by decide, by decide, ?_, ?_⟩
+  · simp [demoGrid, ValidCell, EncodableT, Encodable, toCell, IdsInRange, I32]
+  · intro r row hrow c cell hcell
+    match r, c with
+    | 0, 0 | 0, 1 | 1, 0 | 1, 1 | 2, 0 | 2, 1 =>
+      simp [demoGrid] at hrow; subst hrow; simp at hcell; subst hcell; simp [demoMerge]
+    | 0, c + 2 | 1, c + 2 | 2, c + 2 => simp [demoGrid] at hrow; subst hrow; simp at hcell
+    | r + 3, _ => simp [demoGrid] at hrow
+/-- ... and its conclusion, computed: both texts come back (they share key 1), the hole is the
+    merged placeholder. -/
+example : ((saveTable demoGrid).bind (loadTable demoMerge)).map (fun g => g.map (·.map forgetKey))
+    = .ok (demoGrid.map (·.map viewT)) := by decide +kernel
+example : (saveTable demoGrid).map (fun s => (s.numRows, s.numCols)) = .ok (3, 2) := by decide +kernel
+example : (saveTable demoGrid).map (fun s => s.strings) = .ok [⟨1, 2, "ab".toList⟩] := by decide +kernel
+example : (saveTable demoGrid).map (fun s => s.tiles.map (fun t => t.rowInfos.map (fun r => r.cellCount)))
+    = .ok [[2, 1, 2]] := by decide +kernel
+/-- 257 rows (two tiles), one column: 256 bools and, in the second tile, a text. The save writes
+    tiles (0: 256 rows) and (1: 1 row); the cell of row 256 is read from the second tile with its
+    text. (The whole-grid statement for this shape is `table_roundtrip`; evaluating all 257 cells in
+    the kernel takes ~35 s, so the example evaluates the tiles and the last cell.) -/
+def tallGrid : List (List TCell) := (List.range 257).map fun i =>
+  [if i = 256 then (⟨.text, [], ['B'], none, {}⟩ : TCell) else ⟨.bool, List.replicate 8 1, [], none, {}⟩]
+example : (saveTable tallGrid).map (fun s => s.tiles.map (fun t => (t.tileid, t.numrows, t.rowInfos.length)))
+    = .ok [(0, 256, 256), (1, 1, 1)] := by decide +kernel
+example : ((saveTable tallGrid).bind fun s =>
+      loadCell (fun _ _ => false) (Layout.rowStorageMap s.numRows s.tileSize (s.tiles.map toLayoutTile))
+        (decodeTiles s.numCols s.tiles) (Layout.addTable s.strings) 256 0).map forgetKey
+    = .ok (viewT ⟨.text, [], ['B'], none, {}⟩) := by decide +kernel
 
 end NumbersModel.Props.C01
